@@ -206,6 +206,8 @@ def run_real(cfg, ins, plan, make_batcher=None):
             try:
                 for idx, (d, act) in enumerate(script):
                     await asyncio.sleep(d * TICK)
+                    for _ in range(plan.get('hops', 0)):       # ... and so is each step of the batch function
+                        await asyncio.sleep(0)
                     out.append(('act', now(), b, idx))
                     if act[0] == 'yield':
                         r = act[2]
@@ -254,6 +256,8 @@ def run_real(cfg, ins, plan, make_batcher=None):
             if dt > 0:
                 await asyncio.sleep(dt)
             if i[0] == 'c':
+                for _ in range(i[6] if len(i) > 6 else 0):     # the call is made a few loop iterations into its instant
+                    await asyncio.sleep(0)
                 tasks[i[2]] = asyncio.create_task(caller(i[2], i[3], i[4], i[5]))
             elif i[0] == 'x':
                 for _ in range(i[3] if len(i) > 3 else 0):
@@ -332,6 +336,26 @@ def monitor_cleanup(cfg, evs):
                                               f'max_concurrent_batches = {cfg["maxc"]}'))
             break
     return bad
+
+
+# ------------------------------------------------------------------ arrivals that coincide with batch ends (C10)
+def gen_race(rng):
+    """Distinct keys, `max_batch_size` 1..2, the slots saturated and batches waiting for one, while further calls
+    arrive at the very instants at which running batches finish - each a few loop iterations into the instant, the
+    batch function a few iterations into its own.  Which of a release and an arrival of the same instant comes first
+    is not the model's business (it flags the tie); arrival order across batches, sizes and the concurrency limit do
+    not depend on it and are judged by the monitors."""
+    D = rng.choice([8, 16])
+    cfg = dict(maxb=rng.choice([1, 1, 2]), maxc=rng.choice([1, 1, 2]), bt=rng.choice([0, D]), ret=0)
+    n = rng.randint(3, 7)
+    ins = []
+    t = 0
+    for i in range(n):
+        t += rng.choice([0, 1, D, D, D, 2 * D, D // 2])
+        ins.append(('c', t, i, rng.randint(0, 9), i, 0, rng.choice([0, 0, 1, 2, 3])))
+    plan = dict(per=[[0] * 6 for _ in range(12)], order=0, raiseAt=[99] * 12, idelay=D, tail=rng.choice([0, 0, D]),
+                hops=rng.choice([0, 1, 2, 3]))
+    return cfg, ins, plan
 
 
 # ------------------------------------------------------------------ cancel variants (C09, the theorem's shape)
@@ -600,7 +624,7 @@ def analyse(cfg, ins, evs):
     for i in ins:
         if i[0] != 'c':
             continue
-        _, t, cid, arg, key, dk = i
+        _, t, cid, arg, key, dk = i[:6]
         w = window.get(key)
         if w is not None:
             comp, _ = completion(w)
@@ -616,9 +640,11 @@ def analyse(cfg, ins, evs):
                 answered_by=answered_by, completion=completion, bymeta=bymeta)
 
 
-def monitors(cfg, ins, evs, want):
+def monitors(cfg, ins, evs, want, timing=True):
     """Property-level monitors on one real execution. `want` = set of property ids to judge.
-    Returns list of (property, kind, detail)."""
+    Returns list of (property, kind, detail).  `timing=False`: an input coincided with an internal event of the
+    machine (a tie): only the monitors that do not depend on which of the two came first are applied (sizes,
+    duplicate keys, the concurrency limit, arrival order across batches, nobody pending, outcomes)."""
     bad = []
     a = analyse(cfg, ins, evs)
     if a.get('tie'):
@@ -677,7 +703,7 @@ def monitors(cfg, ins, evs, want):
                 bad.append(('C10', 'fifo', (workk, flatk)))
         return bad
     # ---- C10 deadline / early / sharing of a batch (no limit change in the run: timing is exact)
-    if 'C10' in want and not maxes:
+    if 'C10' in want and not maxes and timing:
         i = 0
         pos = {}
         for bi, b in enumerate(batches):
